@@ -192,11 +192,7 @@ where
         self.prompt = prompt;
         self.clear_line(false)?;
 
-        if let Some(editor) = self.editor.as_mut() {
-            self.writer.flush_str(editor.text())?;
-        }
-
-        Ok(())
+        self.write_input()
     }
 
     pub fn write(
@@ -214,8 +210,18 @@ where
             self.writer.write_str(codes::CRLF)?;
         }
         self.writer.write_str(self.prompt)?;
+        self.write_input()
+    }
+
+    /// Writes current input after the prompt and leaves terminal cursor
+    /// where editor cursor is (it can be inside the line)
+    fn write_input(&mut self) -> Result<(), E> {
         if let Some(editor) = self.editor.as_mut() {
-            self.writer.flush_str(editor.text())?;
+            self.writer.write_str(editor.text())?;
+            for _ in editor.cursor()..editor.len() {
+                self.writer.write_bytes(codes::CURSOR_BACKWARD)?;
+            }
+            self.writer.flush()?;
         }
 
         Ok(())
